@@ -116,7 +116,7 @@ func checkCLI(c CLICase) (string, error) {
 }
 
 func genCLI(t *rapid.T) CLICase {
-	o := model.Opts{NoInlineUnique: true}
+	o := model.Opts{NoInlineUnique: true, WordNames: true}
 	c := CLICase{A: model.GenSchema(t, 3, o), To: rapid.SampledFrom([]string{"hcl", "hcl", "sql", "url"}).Draw(t, "to")}
 	c.B = c.A.Clone()
 	for n := rapid.IntRange(1, 4).Draw(t, "nedits"); n > 0; n-- {
